@@ -46,6 +46,9 @@ class Spec:
                    "scripts propagate the status of a failing redo-ifchange (sh -e style)"]
     checks = {"execset", "calls", "once", "content", "ood-after-fail"}
 
+    def accepts(self, case):
+        return "ops" in case
+
     def cases(self, tier):
         return 1600 if tier == "quick" else 16000
 
@@ -62,3 +65,16 @@ class Spec:
 
 
 SPEC = Spec()
+
+
+def spec_for(case):
+    from . import c05s
+    return c05s.SPEC if "invs" in case else SPEC
+
+
+def run_check(tier, seed):
+    from .. import engine
+    code_h, ev_h = engine.run_property("rv.props.c05", tier, seed)
+    code_s, ev_s = engine.run_property("rv.props.c05s", tier, seed)
+    ev = engine.merge_evidence(ev_h, ev_s, "serial histories", "parallel scheduled scenarios")
+    return max(code_h, code_s) if 1 not in (code_h, code_s) else 1, ev
